@@ -76,6 +76,7 @@ Qed.
 Definition expected_flag_branches : list (string * string * string * string * string) := [
   ("pybaselines/_banded_utils.py"%string, "PenalizedSystem.reset_diagonals"%string, "allow_lower and (not using_pentapy)"%string, ""%string, ""%string);
   ("pybaselines/_banded_utils.py"%string, "PenalizedSystem.reset_diagonals"%string, "reverse_diags or (using_pentapy and reverse_diags is None)"%string, ""%string, ""%string);
+  ("pybaselines/_banded_utils.py"%string, "PenalizedSystem.solve"%string, "check_output and (not self.using_pentapy) and (not np.isfinite(output).all())"%string, "np.linalg.LinAlgError"%string, ""%string);
   ("pybaselines/_banded_utils.py"%string, "PenalizedSystem.solve"%string, "self.using_pentapy"%string, "_pentapy_solver"%string, "len solve_banded solveh_banded"%string);
   ("pybaselines/_spline_utils.py"%string, "PSpline.__init__"%string, "_HAS_NUMBA and self.basis._x_len * (self.basis.spline_degree + 1) == len(self.ba"%string, ""%string, ""%string);
   ("pybaselines/_spline_utils.py"%string, "PSpline.solve_pspline"%string, "self._use_numba"%string, "=self.basis.basis.tocsr().data _lower_to_full _numba_btb_bty np.zeros self.basis.basis.tocsr"%string, ""%string);
@@ -113,3 +114,17 @@ Definition kernel_has_pair (k : string * string * string) : bool :=
 Lemma branches_ok :
   flag_branches = expected_flag_branches /\ (forall k, In k jit_functions -> kernel_has_pair k = true).
 Proof. split; [reflexivity|]. apply forallb_forall. vm_compute. reflexivity. Qed.
+
+(* ---- round 7: the algebraic identity both members of a pair must implement, read in IEEE arithmetic.  The sums run
+   over ALL samples i, including those with w_i = 0: 0 * NaN = NaN and 0 * inf = NaN, so a backend that skips
+   zero-weight samples (e.g. by going through a sparse diagonal matrix that drops stored zeros) is NOT the same function
+   on non-finite data.  C10 ("the same result whichever backend") therefore demands equal propagation of NaN / inf; the
+   harness compares outcome kinds and non-finite patterns on an enumerated grid (zero weights x NaN/+inf/-inf). *)
+Definition pair_identities : list (string * string) := [
+  ("_numba_btb_bty / sparse fallback: lhs"%string, "ab[r - c, c] = sum_{i = 0..n-1} w_i * B[i,r] * B[i,c]   (C07 btwb, C12_btb_exact)"%string);
+  ("_numba_btb_bty / sparse fallback: rhs"%string, "rhs[r] = sum_{i = 0..n-1} w_i * y_i * B[i,r], every i, also w_i = 0   (C07 bty, C12_btb_exact)"%string);
+  ("__make_design_matrix / BSpline.design_matrix"%string, "B[i, j] = B_{j,k}(x_i) for the x order given"%string);
+  ("_numba_banded_dot_banded / scipy.sparse product"%string, "C[i,j] = sum_k A[i,k] * B[k,j]   (C10_beads_kernel)"%string);
+  ("pentapy / solveh_banded / solve_banded"%string, "x with (W + lam D'D + ...) x = rhs; rhs = w * y elementwise for every sample"%string)
+].
+
